@@ -99,6 +99,25 @@ func Run(p *load.Program, tier string) *oblig.Set {
 	methods := []string{"Push", "Pop", "PushFrame", "PopFrame", "Set", "LookUpLocal", "LookUpClosure", "PushClosure", "PopClosure", "Top", "IP", "ResetSP", "Reset", "growStack", "CallDepth", "SetGlobal"}
 	for _, m := range methods {
 		fn := p.Method("memory", "Type", m)
+		if fn == nil && m == "growStack" {
+			// the growth helper by what it is, when it carries another name: the
+			// unexported method that takes one int and returns nothing
+			if named, ok := e.T.(*types.Named); ok {
+				ms := types.NewMethodSet(types.NewPointer(named))
+				for i := 0; i < ms.Len(); i++ {
+					f2 := p.SSA.MethodValue(ms.At(i))
+					if f2 == nil || f2.Blocks == nil || f2.Object() == nil || f2.Object().Exported() {
+						continue
+					}
+					sig := f2.Signature
+					if sig.Params().Len() == 1 && sig.Results().Len() == 0 {
+						if b, ok := sig.Params().At(0).Type().Underlying().(*types.Basic); ok && b.Kind() == types.Int {
+							fn = f2
+						}
+					}
+				}
+			}
+		}
 		if fn == nil {
 			s.Unk("ANCHOR", "memory.Type."+m, "-", "method not found")
 			continue
